@@ -56,7 +56,8 @@ def strform(e, env):
     if isinstance(e, ast.Name):
         if e.id in env:
             return env[e.id]
-        return (("v", e.id),)
+        # a name is a *value*: the k-th (re)definition on the path is a different value ("n", "n'", "n''", ...)
+        return (("v", e.id + "'" * env.get("%ver", {}).get(e.id, 0)),)
     if isinstance(e, ast.JoinedStr):
         out = ()
         for v in e.values:
@@ -105,6 +106,10 @@ def _merge(parts):
         else:
             out.append(p)
     return tuple(out)
+
+
+def _unver(form):
+    return tuple((k, v.rstrip("'")) for k, v in form) if form is not None else None
 
 
 def show(form):
@@ -198,12 +203,15 @@ def run(ctx):
     ctx.ob("C02.a", NAMER, "SignalNamespace.get_name", "fresh-signal paths:present", len(fresh) >= 2,
            f"expected plain and suffixed fresh paths, found {len(fresh)}", fn)
     n_plain = n_suff = 0
+    shapes_fresh = set()
     for p, i0 in fresh:
-        env = {}
+        ver = {}
+        env = {"%ver": ver}
         inserted = []       # (registry, form, value node)
         tested_absent = []  # (registry, form, how)
         zero_sel = None
         memo_store = False
+        memo_val = None
         for j, e in enumerate(p.ev):
             if e[0] == "stmt":
                 st = e[1]
@@ -211,6 +219,8 @@ def run(ctx):
                     t = st.targets[0]
                     if isinstance(t, ast.Name):
                         v = st.value
+                        vform = strform(v, env)
+                        ver[t.id] = ver.get(t.id, 0) + 1
                         # n = self.U.get(K, 0)
                         if isinstance(v, ast.Call) and isinstance(v.func, ast.Attribute) and v.func.attr == "get" and \
                                 len(v.args) == 2 and norm(v.args[1]) == "0" and norm(v.func.value).startswith("self."):
@@ -219,7 +229,7 @@ def run(ctx):
                                 tested_absent.append((norm(v.func.value), f, ("count-var", t.id)))
                             env.pop(t.id, None)
                         else:
-                            f = strform(v, env)
+                            f = vform
                             if f is not None and not (isinstance(v, ast.Name) and v.id not in env and False):
                                 # only track string-typed locals: those built from literals/f-strings/known strings
                                 if isinstance(v, (ast.JoinedStr, ast.BinOp)) or (isinstance(v, ast.Name) and v.id in env) or \
@@ -234,13 +244,15 @@ def run(ctx):
                         if norm(t.slice) == "sig":
                             if reg == memo:
                                 memo_store = True
+                                memo_val = strform(st.value, env) if isinstance(st.value, ast.Name) else None
                         else:
                             f = strform(t.slice, env)
                             if f is not None:
                                 inserted.append((reg, f, st.value))
                 elif isinstance(st, ast.AugAssign) and isinstance(st.target, ast.Name) and isinstance(st.op, ast.Add):
-                    cur = env.get(st.target.id, (("v", st.target.id),))
+                    cur = strform(st.target, env)
                     add = strform(st.value, env)
+                    ver[st.target.id] = ver.get(st.target.id, 0) + 1
                     if add is not None and isinstance(st.value, (ast.JoinedStr, ast.Constant, ast.BinOp)) and \
                             not (isinstance(st.value, ast.Constant) and not isinstance(st.value.value, str)):
                         env[st.target.id] = _merge(cur + add)
@@ -328,8 +340,68 @@ def run(ctx):
                              f"(tested: {[show(x[1]) for x in tested_absent]}): a user-provided name of that form collides", p.end_node)
         ctx.ob("C02.a", NAMER, "SignalNamespace.get_name", f"{role}: memoised per signal", memo_store,
                "" if memo_store else f"{memo}[sig] is not recorded on the fresh path", p.end_node)
+        # the memoised number is the one the returned name was built from (later requests rebuild the name from it)
+        final = (("v", cnt_var + "'" * ver.get(cnt_var, 0)),)
+        ok = memo_store and memo_val == final and (not suffixed or final[0] in ret)
+        ctx.ob("C02.a", NAMER, "SignalNamespace.get_name", f"{role}: memoised number = the number in the returned name", ok,
+               "" if ok else f"{memo}[sig] records `{show(memo_val)}` but the name is built from `{show(final)}` (returned `{show(ret)}`): "
+                             f"a second request for the same signal returns a different -- possibly somebody else's -- name", p.end_node)
+        shapes_fresh.add((zero_sel, _unver(ret)))
     ctx.ob("C02.a", NAMER, "SignalNamespace.get_name", "both forms reachable", n_plain > 0 and n_suff > 0,
            f"plain paths {n_plain}, suffixed paths {n_suff}", fn)
+    # memo-hit paths: the name is rebuilt from the memoised number by the same rule as on the fresh paths, nothing is registered
+    nhit = 0
+    for p in paths:
+        if p.end != "return" or p.end_node.value is None or norm(p.end_node.value) == "None":
+            continue
+        i = p.index_where(lambda e: e[0] == "test" and norm(e[1]) in (f"{cnt_var} is None", f"{cnt_var} is not None"))
+        if i < 0:
+            continue
+        t, pol = norm(p.ev[i][1]), p.ev[i][2]
+        if pol if t.endswith("is None") else (not pol):
+            continue
+        ver = {}
+        env = {"%ver": ver}
+        zero_sel = None
+        writes = []
+        understood = True
+        for j, e in enumerate(p.ev):
+            if e[0] == "stmt":
+                st = e[1]
+                if isinstance(st, ast.Assign) and len(st.targets) == 1 and isinstance(st.targets[0], ast.Name):
+                    v, tid = st.value, st.targets[0].id
+                    f = strform(v, env)
+                    ver[tid] = ver.get(tid, 0) + 1
+                    if f is not None and (isinstance(v, (ast.JoinedStr, ast.BinOp)) or (isinstance(v, ast.Name) and v.id in env) or
+                                          (isinstance(v, ast.Constant) and isinstance(v.value, str))):
+                        env[tid] = f
+                    else:
+                        env.pop(tid, None)
+                elif isinstance(st, ast.AugAssign) and isinstance(st.target, ast.Name):
+                    cur, add = strform(st.target, env), strform(st.value, env)
+                    ver[st.target.id] = ver.get(st.target.id, 0) + 1
+                    if add is not None and isinstance(st.op, ast.Add) and isinstance(st.value, (ast.JoinedStr, ast.BinOp)):
+                        env[st.target.id] = _merge(cur + add)
+                    else:
+                        env.pop(st.target.id, None)
+                        if j > i and st.target.id == cnt_var:
+                            understood = False
+                elif j > i and isinstance(st, ast.Assign) and isinstance(st.targets[0], ast.Subscript) and norm(st.targets[0].value).startswith("self."):
+                    writes.append(norm(st))
+            elif e[0] == "test" and j > i:
+                z = _zero_test(e[1], cnt_var)
+                if z != 0:
+                    zero_sel = (z > 0) == e[2]
+        ret = strform(p.end_node.value, env)
+        if ret is None:
+            continue
+        nhit += 1
+        ok = understood and (zero_sel, _unver(ret)) in shapes_fresh and not writes
+        ctx.ob("C02.a", NAMER, "SignalNamespace.get_name", f"memo hit ({'suffixed' if len(ret) > 1 else 'plain'}): same name as first handed out", ok,
+               "" if ok else f"on a repeated request `{show(ret)}` is returned on count {'> 0' if zero_sel else '== 0'} "
+                             f"(fresh paths: {sorted((str(z), show(r)) for z, r in shapes_fresh)}; registry writes {writes}): the name of a "
+                             f"signal changes between two requests", p.end_node)
+    ctx.ob("C02.a", NAMER, "SignalNamespace.get_name", "memo-hit paths:present", nhit >= 2, f"{nhit} memo-hit paths", fn)
 
     # =============================================================== C02.b
     for rel in (VER, MEM, INS, EXP):
